@@ -283,8 +283,15 @@ def exec_vp8desc(gen):
                 tl0picidx=(pid % 256) if c & 2 else None, tid=((pid % 4), (pid // 4) % 2) if c & 4 else None,
                 keyidx=(pid % 32) if c & 8 else None)
             raw = bytes(d)
-            back, rest = vpx.VpxPayloadDescriptor.parse(raw + b"\xAA\xBB")
-            tr["rows"].append({"pid": pid, "s": s, "d": list(raw[:4]),
+            tail = bytes([0xAA, pid % 256, 0xBB])
+            back, rest = vpx.VpxPayloadDescriptor.parse(raw + tail)
+            dep = vpx.vp8_depayload(raw + tail)
+            feq = all(getattr(back, f) == getattr(d, f) for f in
+                      ("partition_start", "partition_id", "picture_id", "tl0picidx", "tid", "keyidx"))
+            tr["rows"].append({"pid": pid, "s": s, "d": list(raw[:4]), "rawlen": len(raw),
+                               "plen": len(raw) + len(tail) - len(rest) if rest == (raw + tail)[len(raw) + len(tail) - len(rest):] else -1,
+                               "dplen": len(raw) + len(tail) - len(dep) if dep == (raw + tail)[len(raw) + len(tail) - len(dep):] else -1,
+                               "feq": bool(feq),
                                "ppid": back.picture_id if back.picture_id is not None else -1})
     except Exception as e:
         tr["exc"] = "%s in descriptor sweep: %s" % (type(e).__name__, str(e)[:80])
